@@ -5,7 +5,7 @@ from .common import hexs, fhex, frac_of_bits, f32_bits
 
 RULE = ("abstract plans (scale 1..127 and 0, 0..6 points, 0..9 entries with every action code, flag combination, runs of "
         "'same as previous', 1-5 byte varuints for time/duration/delays incl. values around 2^7k, 2^24 and 2^32) encoded by "
-        "the generator, queried at times before/at/after every cumulative time, negative, 0, +-inf, NaN, large; plus a "
+        "the generator, plans longer than 64 KiB (more than 16384 points, up to 300 entries), queried at times before/at/after every cumulative time, negative, 0, +-inf, NaN, large; plus a "
         "malformed stream (every truncation, random byte edits, bad point indices, non-canonical varuints). "
         "Non-trivial = plan initialised and at least one query answered successfully with an entry (not the immediate landing).")
 EXPLANATION = "discrete fields exact; float fields of the implementation are compared as exact rationals with the integers the model computes"
@@ -99,6 +99,25 @@ def times_for(rng, ents):
 
 def cases(rng, tier):
     n = 40000 if tier == "thorough" else 2500
+    # plans longer than 64 KiB: a point table of more than 16384 points (indices beyond 8 and 14 bits), entries beyond
+    # byte offset 65536, more than 255 entries
+    for k in range(4 if tier == "thorough" else 1):
+        scale = rng.choice([1, 2, 10])
+        pts = [(rng.randint(-3000, 3000), rng.randint(-3000, 3000)) for _ in range(rng.choice([16400, 16500, 20000]))]
+        ents = []
+        cum, prev = 0, 1
+        for j in range(rng.choice([40, 60]) if k % 2 == 0 else 300):
+            code = rng.choice([0, 1, 2, 3, 3])
+            a = prev if code == 0 else code
+            prev = a
+            dt = rng.choice([0, 1, 5, 100])
+            cum += dt
+            ents.append(dict(dt=dt, code=code, point=rng.choice([0, 127, 128, 255, 256, 16383, 16384, len(pts) - 1]), alt=rng.randint(-300, 3000),
+                             neck=rng.choice([0, 5]), neckd=3, dur=20, pre=None, post=rng.choice([None, 5]), a=a, pad=0, cum=cum))
+        b = encode(scale, pts, ents)
+        sel = [ents[j] for j in (0, 1, len(ents) // 2, len(ents) - 2, len(ents) - 1)]
+        ts = ",".join(fhex(t) for t in [float(e["cum"]) for e in sel] + [float(ents[-1]["cum"]) + 1, -1.0, float("inf")])
+        yield ("rth %s 0,255,256,16383,16384,%d,%d,70000 %s" % (hexs(b), len(pts) - 1, len(pts), ts), "long-plan")
     for i in range(n):
         big = (i % 4 == 0)
         scale, pts, ents = rand_plan(rng, big)
